@@ -48,6 +48,22 @@ class Substituter(Transformer):
         return s
 
 
+def resolve_subst(subst: Subst) -> Subst:
+    """Applies a substitution to its own solutions until no solved variable is left in them.
+
+    The substitutions computed by `unify` are triangular: the solution of a variable may
+    mention other variables that are solved as well. Since `Substituter` performs a single
+    pass, such a substitution has to be resolved before its solutions are inspected or
+    handed to a caller. Terminates since `unify` never returns cyclic substitutions.
+    """
+    for _ in range(len(subst)):
+        resolved: Subst = {v: t.substitute(subst) for v, t in subst.items()}
+        if resolved == subst:
+            break
+        subst = resolved
+    return subst
+
+
 class Instantiator(Transformer):
     """Type transformer that instantiates bound variables."""
 
